@@ -166,6 +166,18 @@ def special_structure_cases(rng, tier):
                 p = struct_poly(g, elt, lp, cls)
                 for i in ((0, lp - 1, lp) if thorough else (g.choice([0, lp - 1]), lp)):
                     cases.append(mk_case(elt, "access", [p, i, spx(g, elt)], "access-special-" + elt))
+        g = rng.fork("hist-" + elt)
+        classes = ("random",) + STRUCTS
+        for k, cls in enumerate(classes):
+            if elt == 'rat' and cls == "neg-zeros": continue
+            if not thorough and (k + g.below(2)) % 2: continue            # half of the classes per seed
+            for lp in (range(0, 6) if thorough else [g.range(1, 5)]):
+                p = (rpoly(g, elt, lp) if cls == "random" else struct_poly(g, elt, lp, cls)) if lp else []
+                q = rpoly(g, elt, g.range(0, 4))
+                # index: first, last, one past the end; value: zero (the assignment creates a vanishing leading coefficient) or special
+                for i in ((0, max(lp - 1, 0), lp) if thorough else (g.choice([0, max(lp - 1, 0)]), max(lp - 1, 0) if g.chance(2, 3) else lp)):
+                    x = conv(elt, 0) if g.chance(1, 2) else spx(g, elt)
+                    cases.append(mk_case(elt, "hist", [p, q, i, x], "hist-" + elt, nontrivial=(lp > 0)))
         g = rng.fork("ctor-special-" + elt)
         menu = special_scalars(elt)
         for k in range(len(menu) if thorough else 3):
@@ -180,7 +192,7 @@ def exact_zero(elt):
     return {'rat': Fraction(0), 'f64': 0.0, 'cplx': complex(0.0, 0.0)}[elt]
 
 def case_from_json(j):
-    return case_from_json_common(j, ("ring", "calc", "access", "ctor"))
+    return case_from_json_common(j, ("ring", "calc", "access", "ctor", "hist"))
 
 # ------------------------------------------------------------------ oracle
 _APPROX = False      # False: exact comparison; True: general-float case, every expected value carries a running bound
@@ -353,13 +365,83 @@ def oracle_ctor(elt, vals, st):
     if st.int() != -1: return "degree() of the empty polynomial is not an error"
     return None
 
+def _trimmed(P):
+    k = len(P)
+    while k > 1 and P[k - 1] == 0: k -= 1
+    return P[:k]
+
+def oracle_hist(elt, vals, st):
+    """histories: the expected answer of every block from the textbook model (lists), a panic where the first
+    operation of the block has no meaning (index beyond the CURRENT size; trim / eval / derivative of the empty one)"""
+    p, q, i, x = vals
+    P, Q = [exact(elt, a) for a in p], [exact(elt, a) for a in q]
+    X = exact(elt, x); z = zero_of(elt)
+    def want_panic(name):
+        if not st.peek_panic(): return "%s: expected a panic" % name
+        st.pos += 1
+        return None
+    # H1: p[i] = x; trim
+    if i >= len(P): m = want_panic("H1 p[%d] = x beyond the size %d" % (i, len(P)))
+    else:
+        c = _trimmed(P[:i] + [X] + P[i + 1:])
+        m = _exp_poly("H1 p after p[%d] = %s; trim" % (i, X), st.poly_or_panic(), c)
+        if not m:
+            d, zf = st.int(), st.int()
+            if d != len(c) - 1: m = "H1 degree() after p[%d] = %s; trim is %d, expected %d" % (i, X, d, len(c) - 1)
+            elif zf != (1 if all(a == 0 for a in c) else 0): m = "H1 is_zero() after p[%d] = %s; trim is %d on %s" % (i, X, zf, _show(c))
+    if m: return m
+    # H2: trim; trim
+    if not P:
+        if st.peek_panic(): st.pos += 1          # trim of the empty polynomial: a panic (as pinned) or no change
+        else:
+            m = _exp_poly("H2 trim; trim of the empty polynomial", st.poly(), []); st.int()
+    else:
+        m = _exp_poly("H2 p after trim; trim", st.poly_or_panic(), _trimmed(P))
+        if not m and st.int() != 1: m = "H2 the second trim changed a trimmed polynomial"
+    if m: return m
+    # H3: trim; p[i] = x
+    t = _trimmed(P)
+    if not P or i >= len(t):
+        m = want_panic("H3 trim; p[%d] = x beyond the trimmed size %d" % (i, len(t)))
+    else: m = _exp_poly("H3 p after trim; p[%d] = %s" % (i, X), st.poly_or_panic(), t[:i] + [X] + t[i + 1:])
+    if m: return m
+    # H4: coeffs().len(); coeffs().push(x)
+    n = st.int()
+    if n != len(P): return "H4 coeffs().len() = %d for %d coefficients" % (n, len(P))
+    m = _exp_poly("H4 p after coeffs().push(%s)" % X, st.poly(), P + [X])
+    if m: return m
+    d = st.int()
+    if d != len(P): return "H4 degree() after coeffs().push is %d, expected %d" % (d, len(P))
+    # H5: coeffs()[i] = x
+    if i >= len(P): m = want_panic("H5 coeffs()[%d] = x beyond the size" % i)
+    else: m = _exp_poly("H5 p after coeffs()[%d] = %s" % (i, X), st.poly_or_panic(), P[:i] + [X] + P[i + 1:])
+    if m: return m
+    # H6: trim then operate
+    if not P:
+        m = want_panic("H6 trim of the empty polynomial")
+    elif st.peek_panic():
+        m = "H6 trim p, then t+q, t*q, q-t, t(x), t' panicked"
+    else:
+        m = (_exp_poly("H6 trim(p)+q", st.poly(), ref_add(t, Q)) or _exp_poly("H6 trim(p)*q", st.poly(), ref_mul(t, Q, z))
+             or _exp_poly("H6 q-trim(p)", st.poly(), ref_sub(Q, t)) or _exp_scalar("H6 trim(p)(%s)" % X, st.scalar(), ref_eval(t, X, z))
+             or _exp_poly("H6 trim(p)'", st.poly(), ref_deriv(t)))
+    if m: return m
+    # H7: assign then operate
+    if i >= len(P): m = want_panic("H7 p[%d] = x beyond the size" % i)
+    elif st.peek_panic(): m = "H7 p[%d] = %s, then p(x), p', p*q panicked" % (i, X)
+    else:
+        c = P[:i] + [X] + P[i + 1:]
+        m = (_exp_scalar("H7 p(%s) after p[%d] = %s" % (X, i, X), st.scalar(), ref_eval(c, X, z))
+             or _exp_poly("H7 p' after p[%d] = %s" % (i, X), st.poly(), ref_deriv(c)) or _exp_poly("H7 p*q after p[%d] = %s" % (i, X), st.poly(), ref_mul(c, Q, z)))
+    return m
+
 def oracle(case, items):
     global _APPROX
     kind, vals = case_vals(case)
     st = Stream(case.elt, items)
     _APPROX = bool(case.meta.get("approx"))
     try:
-        f = {"ring": oracle_ring, "calc": oracle_calc, "access": oracle_access, "ctor": oracle_ctor}[kind]
+        f = {"ring": oracle_ring, "calc": oracle_calc, "access": oracle_access, "ctor": oracle_ctor, "hist": oracle_hist}[kind]
         m = f(case.elt, vals, st)
         if m is None and not st.done():
             m = "answer has %d unexpected trailing items" % (len(items) - st.pos)
